@@ -7,6 +7,8 @@ INV = "TreeEdgeOK TreeRooted TreeMono TreeAllowed AtDone IterBound SizeBound RtB
 V = {
  "q": {},
  "": dict(MaxE=4),
+ "n4": dict(NV=4, MaxE=3, HVals="{0, 2000}"),
+ "n4e4": dict(NV=4, MaxE=4, HVals="{0, 2000}", Dirs='{"fwd"}'),
  "cost_q": dict(Lens="{2, 4}", Spds="{1, 2}", Weights="<- Blend", Surs="{0, 1}", HVals="{0, 2000}", MaxE=2, NoDst="FALSE"),
  "cost": dict(Lens="{2, 4}", Spds="{1, 2}", Weights="<- Blend", Surs="{0, 1}", HVals="{0, 2000}", MaxE=3, NoDst="FALSE"),
  "delay_q": dict(Heads="{0, 180}", Delays="<- SomeDelay", Weights="<- TimeOnly", HVals="{0, 3000}", MaxE=3, Dirs='{"fwd"}', NoDst="FALSE", TieVals="{FALSE, TRUE}"),
